@@ -2,7 +2,7 @@
    single-lock theorem assumes: which lock (and mode) brackets which accesses.
    They are evaluated by the kernel on the skeletons regenerated from /repo
    (Oblig/O10.v, O14.v). Unknown statement shapes (SOther) fail closed. *)
-From Coq Require Import String List Bool.
+From Coq Require Import String List Bool Ascii Arith.
 From GV Require Import Base.Skel.
 Import ListNotations.
 Open Scope string_scope.
@@ -86,15 +86,52 @@ Definition starts_locked (lock unlock lockfield : string) (ss : list sk) : bool 
   | _ => false
   end.
 
-(* number of calls of functions of package unix, at any depth *)
-Fixpoint count_unix (s : sk) : nat :=
+(* number of calls of functions of package unix, at any depth: call statements
+   and calls inside expression texts (unix.F( ... ): conditions with an init
+   clause, arguments, right-hand sides) *)
+Definition ident_char (a : ascii) : bool :=
+  let n := nat_of_ascii a in
+  (Nat.leb 65 n && Nat.leb n 90) || (Nat.leb 97 n && Nat.leb n 122) || (Nat.leb 48 n && Nat.leb n 57) || Nat.eqb n 95.
+
+Fixpoint after_ident (s : string) : string :=
   match s with
-  | SCall _ c _ => if prefix "unix." c then 1 else 0
-  | SDefer c _ | SGo c _ => if prefix "unix." c then 1 else 0
-  | SIf _ thn els => list_sum (map count_unix thn) + list_sum (map count_unix els)
-  | SFor _ b | SRange _ b => list_sum (map count_unix b)
-  | _ => 0
+  | String a s' => if ident_char a then after_ident s' else s
+  | EmptyString => s
   end.
+
+Fixpoint drop_chars (n : nat) (s : string) : string :=
+  match n, s with
+  | S n', String _ s' => drop_chars n' s'
+  | _, _ => s
+  end.
+
+Fixpoint unix_calls_in_text (s : string) : list string :=
+  match s with
+  | EmptyString => []
+  | String _ s' =>
+      (if prefix "unix." s then
+         match after_ident (drop_chars 5 s) with
+         | String "("%char _ => [substring 0 (String.length s - String.length (after_ident (drop_chars 5 s))) s]
+         | _ => []
+         end
+       else []) ++ unix_calls_in_text s'
+  end.
+
+(* the unix functions a statement calls, in source order *)
+Fixpoint unix_calls (s : sk) : list string :=
+  (match s with
+   | SCall _ c args => (if prefix "unix." c then [c] else []) ++ flat_map unix_calls_in_text args
+   | SDefer c args | SGo c args => (if prefix "unix." c then [c] else []) ++ flat_map unix_calls_in_text args
+   | SIf c thn els => unix_calls_in_text c ++ flat_map unix_calls thn ++ flat_map unix_calls els
+   | SFor c b => unix_calls_in_text c ++ flat_map unix_calls b
+   | SRange o b => unix_calls_in_text o ++ flat_map unix_calls b
+   | SReturn vs => flat_map unix_calls_in_text vs
+   | SAssign l r => flat_map unix_calls_in_text (l ++ r)
+   | SBreak => []
+   | SOther t => unix_calls_in_text t
+   end)%list.
+
+Definition count_unix (s : sk) : nat := length (unix_calls s).
 Definition syscalls_in (ss : list sk) : nat := list_sum (map count_unix ss).
 
 Fixpoint has_go (s : sk) : bool :=
